@@ -275,4 +275,6 @@ def run(ctx):
 
     # ---- R5 oversized single argument -> ArgumentTooLarge -> exit 1 -----------------------------------
     C.import_rules(ctx, "C04", ["R5"], "R5")
+    # the budget is only as good as the accounting of the limiters and of what is charged to them (C04.R1, R2, R4)
+    C.import_rules(ctx, "C04", ["R1", "R2", "R4"], "R3", key_prefix="accounting")
     C.import_rules(ctx, "C19", ["R1"], "R5")
